@@ -153,6 +153,30 @@ def run(ctx) -> None:
             ctx.count("location.calls")
             ctx.count("location.hairline_edge_calls")
             ctx.case(f"hairline-edge|{prec}|{gen.flagset(o)}")
+    # gridded positions (N-D lon / lat) in C order, Fortran order, as transposed views, and mixed: the flag of a position sits
+    # at that position's index, hops follow the C-order sequence of the elements
+    for _ in range(ctx.pick(40, 200)):
+        r_, c_ = rng.choice([(2, 3), (3, 2), (2, 2), (3, 4)])
+        box = [10.0, 40.0, 12.0, 42.0]
+        flat_lon = [rng.choice([9.5, 10.0, 10.5, 11.0, 12.0, 12.5, None]) for _ in range(r_ * c_)]
+        flat_lat = [rng.choice([39.5, 40.0, 41.0, 42.0, 42.5, None]) for _ in range(r_ * c_)]
+        rm = rng.choice([None, None, 60000.0])
+        want = [sorted(s_) for s_ in models.location(flat_lon, flat_lat, tuple(box), rm)]
+        lo2, la2 = gen.arr(flat_lon).reshape(r_, c_), gen.arr(flat_lat).reshape(r_, c_)
+        lays = {"C": lambda a: np.ascontiguousarray(a), "F": lambda a: np.asfortranarray(a), "T-view": lambda a: np.ascontiguousarray(a.T).T}
+        for ln, lt in (("C", "C"), ("F", "F"), ("C", "F"), ("T-view", "T-view"), ("F", "C")):
+            kw = {"lon": lays[ln](lo2), "lat": lays[lt](la2), "bbox": box}
+            if rm is not None:
+                kw["range_max"] = rm
+            o = client.invoke("qartod.location_test", kw)
+            ctx.count("location.calls")
+            ctx.count("location.grid_layout_calls")
+            ctx.case(f"grid|{ln}{lt}|{r_}x{c_}|r{rm is not None}")
+            got = None if o.kind != "return" or o.flags is None or np.shape(o.flags) != (r_, c_) else np.asarray(o.flags).reshape(-1).tolist()
+            if got is None or any(g not in w_ for g, w_ in zip(got, want)):
+                ctx.violation(f"C14:grid-layout:{ln}{lt}", {"kind": "call", "func": "qartod.location_test", "layout(lon,lat)": [ln, lt],
+                                                            "shape": [r_, c_], "lon(C order)": flat_lon, "lat(C order)": flat_lat, "bbox": box,
+                                                            "range_max": rm, "admissible(C order)": want, "observed": o.brief()})
     # history: the same coordinate values with and without some fixes masked, one call right after the other
     for _ in range(ctx.pick(150, 1000)):
         n = rng.choice([3, 4, 5, 8])
